@@ -3,6 +3,8 @@ package c20
 import (
 	"fmt"
 	"runtime"
+	"sort"
+	"strings"
 
 	"github.com/ohler55/ojg/asm"
 	"verif/internal/core"
@@ -221,4 +223,73 @@ func normLocal(m map[string]any) map[string]any {
 		out[k] = v
 	}
 	return out
+}
+
+// ---------------------------------------------------------------- documented copies
+
+type copyCase struct {
+	Leg  string `json:"leg"`
+	Fn   string `json:"fn"`
+	List []any  `json:"list"`
+}
+
+// copyLeg: a function whose description promises "a copy" (read from
+// asm.FnDocs at run time: reverse, sort) must return a list that shares no
+// element storage with its argument, for lists of every length from 0 to 3 -
+// otherwise a later in-place change of the result changes $.src.
+func copyLeg(c *core.Ctx) {
+	var fns []string
+	for name, doc := range asm.FnDocs() {
+		if strings.Contains(doc, "return a copy") {
+			fns = append(fns, name)
+		}
+	}
+	sort.Strings(fns)
+	c.Add("functions_documented_to_return_a_copy", int64(len(fns)))
+	lists := [][]any{{}, {int64(5)}, {int64(2), int64(1)}, {int64(3), int64(1), int64(2)}, {"b"}, {"b", "a"}}
+	for _, fn := range fns {
+		for _, l := range lists {
+			judgeCopy(c, fn, l)
+		}
+	}
+}
+
+func judgeCopy(c *core.Ctx, fn string, list []any) {
+	c.Eval()
+	c.Add("copy_cases", 1)
+	src := append(make([]any, 0, len(list)+1), gens.Clone(list).([]any)...) // spare capacity: an append to an alias would show
+	root := map[string]any{"src": map[string]any{"list": src}}
+	var res any
+	pv := func() (p any) {
+		defer func() { p = recover() }()
+		plan := asm.NewPlan([]any{fn, "$.src.list"})
+		res = plan.Eval(root, root, plan.Args...)
+		return nil
+	}()
+	if pv != nil { // the function wants a second argument (sort: what to sort by)
+		pv = func() (p any) {
+			defer func() { p = recover() }()
+			plan := asm.NewPlan([]any{fn, "$.src.list", "@"})
+			res = plan.Eval(root, root, plan.Args...)
+			return nil
+		}()
+	}
+	out, isList := res.([]any)
+	if pv != nil || !isList {
+		c.Add("copy_cases_without_a_list_result", 1)
+		return // totality and results are judged by the main enumeration
+	}
+	c.Nontrivial()
+	before := fmt.Sprint(src[:len(list)])
+	for i := range out {
+		out[i] = "changed"
+	}
+	out = append(out, "appended")
+	_ = out
+	after := fmt.Sprint(root["src"].(map[string]any)["list"].([]any)[:len(list)])
+	full := root["src"].(map[string]any)["list"].([]any)[:len(list)+1]
+	if before != after || (len(full) > len(list) && full[len(list)] == "appended") {
+		c.Fail(core.Sig("documented-copy-shares-storage", "fn="+fn, fmt.Sprintf("len=%d", len(list))), copyCase{Leg: "copy", Fn: fn, List: list}, len(list),
+			"$.src.list unchanged after the result of "+fn+" was changed in place: "+before, fmt.Sprint(full))
+	}
 }
